@@ -7,7 +7,8 @@
      oversized-duration counter never moves;
  (4) streaming decoder: frames with windows around the limit W through static DStreams of exactly ZSTD_estimateDStreamSize(W) and heap
      DStreams with a counting allocator: verdict = DBuf.windowAccepted, peak bytes = sizeof(DCtx) + DBuf.neededBuffers, ZSTD_sizeof_* >= live bytes;
- (5) static contexts of exactly ZSTD_estimate{CCtx,CStream}Size_usingCParams(c), used with exactly c at source sizes around every power of two
+ (5) static contexts of exactly ZSTD_estimate{CCtx,CStream}Size_usingCParams(c) and of the sibling *_usingCCtxParams on a parameter set with exactly c
+     (row finder auto / on / off; model Estimate.estimateUsingCCtxParams, block size tied), used with exactly c at source sizes around every power of two
      up to the window (where ZSTD_adjustCParams re-resolves the logs and the match-finder flavour) under the three row-finder settings:
      every use must fit, its reservations are tied to the model, and the hypothesis of Props.C14.usingCParams_covers is evaluated on it;
  (6) hand-written frame headers (1-, 2-, 4- and 8-byte content sizes of single-segment frames up to 2^64-1, every window descriptor incl.
@@ -115,7 +116,7 @@ def cparams_static_lines(rng, quick):
         if row:
             spec += ",1011=%d" % row
         parts = ["%s %d %d" % (spec, z, z if (stream and pledged_known) else -1) for z in sizes]
-        return "ws 1 %d %d 0 %d %d %s" % (stream, mis, len(sizes), len(sizes), " ".join(parts)), (("cstream" if stream else "cctx", ",".join(map(str, cp))) if by_cparams else None)
+        return "ws 1 %d %d 0 %d %d %s" % (stream, mis, len(sizes), len(sizes), " ".join(parts)), ("cstream" if stream else "cctx", ",".join(map(str, cp)), "p" if by_cparams else str(row))
     idx = 0
     for w in range(11, 19):
         for shape in (0, 1):
@@ -129,8 +130,10 @@ def cparams_static_lines(rng, quick):
                 for row in rows:
                     for stream in (0, 1):
                         out.append(line(cp, row, stream, (0, 8, 24, 56)[idx % 4], sizes_for(w)))
-                        if row and (w + stream + shape) % 2 == 0:
-                            # the sibling estimate ZSTD_estimate*_usingCCtxParams sees the caller's row-finder choice: same uses, flavour forced either way
+                        if row == 0 or (w + stream + shape) % 2 == 0:
+                            # the sibling estimates ZSTD_estimate*_usingCCtxParams on a parameter set with exactly these cParams: same uses; they see the
+                            # caller's row-finder choice; with the choice left to the library the one-shot estimate must budget for EITHER flavour
+                            # (the library decides on the window log it shrank to the source: defect repaired in /repo 11dc910)
                             out.append(line(cp, row, stream, (0, 8, 24, 56)[idx % 4], sizes_for(w), by_cparams=False))
                         idx += 1
     out.sort(key=lambda lm: "1011=" in lm[0])       # row finder left to the library first (stable)
@@ -138,7 +141,7 @@ def cparams_static_lines(rng, quick):
         w = rng.randint(10, 19)
         cp = (w, rng.randint(6, w + 1), rng.randint(6, w + 2), rng.randint(1, 7), rng.randint(3, 7), rng.choice([0, 16, 999]), rng.randint(1, 9))
         szs = [rng.choice([1, 300, 5000]), rng.randint(1 << (w - 1), 1 << w), (1 << w) + rng.randint(1, 5000), rng.randint(15000, 16500)]
-        out.append(line(cp, rng.choice([0, 0, 1, 2]) if 3 <= cp[6] <= 5 else 0, rng.randint(0, 1), rng.choice([0, 8, 16, 40]), szs, pledged_known=rng.random() < 0.6))
+        out.append(line(cp, rng.choice([0, 0, 1, 2]) if 3 <= cp[6] <= 5 else 0, rng.randint(0, 1), rng.choice([0, 8, 16, 40]), szs, pledged_known=rng.random() < 0.6, by_cparams=rng.random() < 0.5))
     return out
 
 
@@ -331,17 +334,33 @@ def correspondence(ctx):
                               dict(kind="tie-workspace", op=ln, use=k, driver_line=d, code=o, model=mline), no_input=True)
                 break
         samples.append(dict(op=meta[0][0], code=meta[0][2][:300], model=mo[0][:300]))
-    # (5) hypothesis and conclusion of Props.C14.usingCParams_covers on every use of a context sized by ZSTD_estimate*_usingCParams
+    # (5) hypotheses and conclusion of Props.C14.usingCParams_covers / usingCCtxParams_covers on every use of a context sized by ZSTD_estimate*_usingCParams /
+    # *_usingCCtxParams with exactly these cParams; the static block size is compared with the model of the public estimate
     cvl = [(ln, k, o, g) for (ln, k, o, g) in meta if ln in cpmeta]
     ncov = 0
+    nfl = [0]
     if cvl:
-        rcm, mout, merr = zv.run([zv.driver_exe(), "mem"], "\n".join("cov %s %s %s" % (cpmeta[ln][0], cpmeta[ln][1], g[2]) for ln, k, o, g in cvl) + "\n", timeout=600)
+        rcm, mout, merr = zv.run([zv.driver_exe(), "mem"], "\n".join(("cov %s %s %s" % (cpmeta[ln][0], cpmeta[ln][1], g[2])) if cpmeta[ln][2] == "p" else
+                                                                       ("covp %s %s %s %s" % (cpmeta[ln][0], cpmeta[ln][2], cpmeta[ln][1], g[2])) for ln, k, o, g in cvl) + "\n", timeout=600)
         for (ln, k, o, g), mline in zip(cvl, mout.split("\n")):
-            mm = re.match(r"le=(\d) need=(\d+) pub=(\d+)", mline)
+            mm = re.match(r"le=(\d)(?: fl=\d)? need=(\d+) pub=(\d+)", mline)
+            fl = re.search(r" fl=(\d)", mline)
             if not mm:
                 ctx.violation("model driver (cov): " + mline[:200], dict(kind="internal"), no_input=True); break
             ncov += 1
-            what = "%s context sized by ZSTD_estimate%sSize_usingCParams(%s), use %d of [%s]" % (cpmeta[ln][0], "CStream" if cpmeta[ln][0] == "cstream" else "CCtx", cpmeta[ln][1], k + 1, ln[:150])
+            byp = cpmeta[ln][2] == "p"
+            what = "%s context sized by ZSTD_estimate%sSize_using%s(%s%s), use %d of [%s]" % (cpmeta[ln][0], "CStream" if cpmeta[ln][0] == "cstream" else "CCtx", "CParams" if byp else "CCtxParams", cpmeta[ln][1],
+                                                                                           "" if byp else ", row finder " + {"0": "auto", "1": "on", "2": "off"}[cpmeta[ln][2]], k + 1, ln[:150])
+            if fl and fl.group(1) != "1":
+                # the match-finder flavour in use is not one the estimate is made for.  Streaming estimate with the mode left automatic: outside the
+                # hypothesis of usingCCtxParams_covers (it sizes the flavour of the unadjusted parameters; the stream buffers shrink by more than the
+                # chain table costs) - the monitors above and the sizing comparison below still apply.  Anything else is a broken hypothesis.
+                if cpmeta[ln][0] == "cstream" and cpmeta[ln][2] == "0":
+                    nfl[0] += 1
+                else:
+                    ctx.violation("match-finder flavour in use (row finder %s) is not one the estimate was made for: %s" % ("on" if g[2].split(",")[5] == "1" else "off", what),
+                                  dict(kind="oracle-validity(usingCCtxParams_covers)", op=ln, use=k, result=o, model=mline), no_input=True)
+                    continue
             if mm.group(1) != "1":
                 ctx.violation("applied parameters are not dominated by the cParams the estimate was asked about: %s: applied %s" % (what, g[2]),
                               dict(kind="oracle-validity(usingCParams_covers)", op=ln, use=k, result=o, model=mline), no_input=True)
@@ -542,7 +561,7 @@ def correspondence(ctx):
                 rule="est lines (random cParams x {cctx,cstream}); ws scenarios (static/heap x one-shot/stream x misalignment x 1..150 uses with levels l<=L or explicit parameter sets incl. LDM, row finder, maxBlockSize, external producer) "
                      "with every use compared field by field with the Lean workspace model; decoder frames (window 1 KiB..3.5 MiB incl. mantissas, FCS present/absent, single segment) x limits at / around the window; hand-written headers (content sizes of every field width up to 2^64-1, descriptors 10..41) x limits set by bytes / by log / static, decided by the model from the header bytes; "
                      "static contexts sized by estimate*_usingCParams used with exactly those cParams at source sizes around each power of two x row finder auto/on/off; sizeof lines. distinct = distinct op lines",
-                samples=samples[:4], ws_use_lines=len(uselines), usingCParams_static_uses=ncov, hostile_header_ops=nhh, level_covers_hypothesis_checked=stats_lv[0], decoder_verdicts={"%s model=%s decoded=%s" % k: v for k, v in verd.items()},
+                samples=samples[:4], ws_use_lines=len(uselines), usingCParams_static_uses=ncov, stream_auto_uses_outside_cover_hypothesis=nfl[0], hostile_header_ops=nhh, level_covers_hypothesis_checked=stats_lv[0], decoder_verdicts={"%s model=%s decoded=%s" % k: v for k, v in verd.items()},
                 hostile_header_verdicts={"%s model=%s decoded=%s" % k: v for k, v in sorted(hverd.items())})
 
 
